@@ -1,6 +1,6 @@
 """C18 — PEAK chunk data and the signal-max commands equal the true maxima."""
 import os
-from .. import c18lib as L, c18stale
+from .. import c18lib as L, c18stale, c18foreign
 from ..core import Violation, VERIF, modules_for
 
 MODULES = modules_for("C18")
@@ -39,7 +39,8 @@ def run(ctx):
     # ---- campaigns ----
     allf = []
     for (tag, fn) in (("peak", L.peak_campaign), ("calc", L.calc_campaign), ("l1calc", getattr(L, "l1_calc_campaign", None)),
-                      ("toggle_rdwr", L.toggle_rdwr_campaign), ("stale", c18stale.stale_campaign)):
+                      ("toggle_rdwr", L.toggle_rdwr_campaign), ("stale", c18stale.stale_campaign),
+                      ("foreign", c18foreign.campaign)):      # foreign-but-valid PEAK placements x SFM_RDWR sessions x close -> re-open
         if fn is None:
             continue
         fs, st = fn(ctx, quick=quick)
@@ -63,6 +64,7 @@ def run(ctx):
         why = ""
         if f.kf:
             why = "# (in the class of %s, but that entry's witness no longer fails, so nothing is waived)\n" % f.kf
+        why += "".join("expect-last %s\n" % e for e in getattr(f, "expect", []))      # what the property demands of the last line (bin/check C18 --replay f)
         ctx.violation("c18-%s-%s" % (tag, f.name),
                       "# C18 violated on the implementation's own transcript (%s campaign, %s)\n# %s\n%s--- script\n%s"
                       % (tag, f.kind, f.text.replace("\n", "\n# "), why, f.script))
